@@ -56,6 +56,8 @@ func C04(c *Ctx) {
 	c.shareRule("C02", "C02-R4", "C04-R14", "the pattern of a branch is matched against the whole message: members of an array that were not consumed stay available (merged under fresh indexes)")
 	c.shareRule("C18", "C18-R3", "C04-R10", "a guard's rejection survives the wrapper every guard runs through: nil bindings stay nil")
 	c.R.Rule("C04-R11", "E3", "a failed action is routed by the spec's settings alone: the exits on the failed-action path depend only on the action's result, ActionErrorBranches and ActionErrorNode", 2)
+	c.R.Rule("C04-R16", "E3", "every candidate the matcher found is offered to the guard", 1)
+	c04AllCandidates(c, "C04-R16")
 	c.R.Rule("C04-R9", "E7", "who may write: the engine never assigns the spec's action-error routing settings", 1)
 	c.R.Rule("C04-R7", "E1", "a guard or action cannot change the current bindings in place (scripts see copies)", 1)
 	step := c.fn("core", "Spec", "Step")
